@@ -15,6 +15,7 @@ class CallGraph:
         self.param_targets = {}  # (callee name, param index) -> set(func names) passed at call sites
         self.edges = {}  # caller name -> set(callee names)
         self.unresolved = []  # (caller, expr text, line)
+        self.higher_order = set()
         self.null_args = set()
         self.nonnull_args = set()
         self.sites = {}  # callee -> [(caller Func, block, idx, node)]
@@ -154,7 +155,22 @@ class CallGraph:
                     if n.get("fn"):
                         es.add(n["fn"])
                         self.sites.setdefault(n["fn"], []).append((f, b, i, n))
+                        # a function passed as an argument may be called on behalf of this caller
+                        for a in n.get("args", []):
+                            a0 = strip(a)
+                            if a0.get("k") == "Un" and a0.get("op") == "&":
+                                a0 = strip(a0["e"])
+                            if a0.get("k") == "Ref" and a0.get("d") == "func":
+                                es.add(a0["n"])
                     else:
+                        fe0 = strip(n.get("fe"))
+                        while isinstance(fe0, dict) and fe0.get("k") == "Un" and fe0.get("op") == "*":
+                            fe0 = strip(fe0["e"])
+                        if isinstance(fe0, dict) and fe0.get("k") == "Ref" and fe0.get("d") == "param" and self.param_targets.get((f.name, fe0.get("pi"))):
+                            # call through a function-pointer parameter (qsort-style): attributed to the call sites that
+                            # pass the function (context-sensitive), see the `func argument` edges below
+                            self.higher_order.add(f.name)
+                            continue
                         t = self.resolve_indirect(f, n)
                         if t is None:
                             self.unresolved.append((f.name, show(n)[:80], n.get("l")))
